@@ -9,7 +9,7 @@
    No proofs here. *)
 From Coq Require Import List ZArith Bool Lia.
 Import ListNotations.
-From OV Require Export C01.Codec C01.Builtins C01.Types.
+From OV Require Export C01.Codec C01.Builtins C01.Types Gen.C01ServiceTypes.
 Open Scope Z_scope.
 
 Inductive case :=
@@ -17,6 +17,12 @@ Inductive case :=
 | CBytes (t : ty) (o : opts) (bs : bytes).
 
 Definition zlen {A} (l : list A) : Z := Z.of_nat (length l).
+
+(* the print of a decoded value; generated structures have no printer on the implementation side,
+   they are observed through their re-encoding only *)
+Fixpoint has_struct (t : ty) : bool :=
+  match t with TStruct _ | TEnum _ _ | TFlags _ _ | TEnumD _ _ _ => true | TArr t' => has_struct t' | _ => false end.
+Definition pr (t : ty) (v : uval) : list Z := if has_struct t then [] else ser_uval v.
 Definition depth0 (o : opts) : nat := Z.to_nat (max_depth o).
 
 (* decode and report: [0; consumed; len print] ++ print ++ [len re-encoding] ++ re-encoding,
@@ -24,7 +30,7 @@ Definition depth0 (o : opts) : nat := Z.to_nat (max_depth o).
 Definition report (t : ty) (o : opts) (input : bytes) : list Z :=
   match run (dec_ty t o (depth0 o)) input with
   | Ok (v', rest') =>
-      [0; zlen input - zlen rest'; zlen (ser_uval v')] ++ ser_uval v'
+      [0; zlen input - zlen rest'; zlen (pr t v')] ++ pr t v'
       ++ [zlen (enc_ty t v')] ++ enc_ty t v'
   | Err _ => [-1]
   | Panic _ => [-2]
@@ -39,7 +45,7 @@ Definition run (c : case) : list Z :=
       match Codec.run (dec_ty t o (depth0 o)) bs with
       | Ok (v, rest) =>
           let b := enc_ty t v in
-          [0; zlen bs - zlen rest; zlen (ser_uval v)] ++ ser_uval v
+          [0; zlen bs - zlen rest; zlen (pr t v)] ++ pr t v
           ++ [len_ty t v; zlen b] ++ b ++ report t o (b ++ rest)
       | Err _ => [-1]
       | Panic _ => [-2]
@@ -143,7 +149,7 @@ Definition oracle_val (t : ty) (v : uval) (o : opts) (out : list Z) : bool :=
       let tail := skipn (Z.to_nat n) more in
       (bl =? n) && (0 <=? n) && (n <=? zlen more) &&
       if fits_ty t o (depth0 o) v
-      then match starts_with ([0; n; zlen (ser_uval (norm_ty t v))] ++ ser_uval (norm_ty t v)) tail with
+      then match starts_with ([0; n; zlen (pr t (norm_ty t v))] ++ pr t (norm_ty t v)) tail with
            | Some (n2 :: b2) => n2 =? zlen b2
            | _ => false
            end
@@ -156,7 +162,7 @@ Definition oracle_val (t : ty) (v : uval) (o : opts) (out : list Z) : bool :=
 Definition oracle_bytes (t : ty) (o : opts) (bs : bytes) (out : list Z) : bool :=
   match Codec.run (dec_ty t o (depth0 o)) bs with
   | Ok (v, rest) =>
-      match starts_with ([0; zlen bs - zlen rest; zlen (ser_uval v)] ++ ser_uval v) out with
+      match starts_with ([0; zlen bs - zlen rest; zlen (pr t v)] ++ pr t v) out with
       | Some more => oracle_val t v o more
       | None => false
       end
